@@ -66,6 +66,11 @@ func init() {
 			`<% let a = [1] %><%= for (i) in [1, 2, 3] { %><% let b = a + i %><% let c = a + 0 %><%= b %><% } %>`,
 			// array literals changed in place and by append
 			`<% let a = [1, 2, 3] %><% a[0] = a[0] + 1 %><% a = a + 4 %><%= a[0] %>,<%= a[3] %>,<%= len(a) %>`, `<%= for (i) in [1, 2] { %><% let b = [1, 2, 3] %><% b[2] = b[2] + i %><%= b[2] %><% } %>`,
+			// comment tags inside blocks (kept by the parser as statements), followed by further statements, in
+			// bodies that are evaluated more than once
+			"<%= if (t) { %>[a<%# a note %>b<%= n %>]<% } %>", "<%= for (x) in [1, 2, 3] { %><%# first %>a<%= x %><%# second %>b<% } %>", "<% let f = fn(v) { %><%# c %>(<%= v %>)<% } %><%= f(1) %><%= f(2) %>",
+			"<%= blk2() { %>x<%# c %>y<%= n %><% } %>", "<% contentFor(\"cc\") { %><%# c %>[<%= n %>]<%# d %>.<% } %><%= contentOf(\"cc\") %><%= contentOf(\"cc\", {n: 9}) %>",
+			"<%= if (false) { %>no<% } else { %><%# c %>e<%= n %><%# d %><% } %>|<%= for (x) in [1, 2] { %><%= if (t) { %><%# c %>i<%= x %><% } %><% } %>",
 			// partials that include themselves (one text executing while another execution of the same text is pending)
 			`<%= partial("tree", {n: 3}) %>`, `<%= partial("tree", {n: 2}) %>|<%= partial("tree", {n: 1}) %>`, `<%= partial("ping", {n: 4}) %>`,
 		)
